@@ -1,7 +1,7 @@
 """C21: dynamic circuits (MCM with reset / postselect, conditionals on measurement-value arithmetic, MCM statistics)
 executed with mcm_method deferred / tree-traversal (analytic) and one-shot (shots); plus the branch circuits of the
 independent reference (one exact circuit per outcome history) for the Coq exact simulator."""
-import sys, math, json, random, math, itertools, warnings
+import sys, math, json, random, math, itertools, warnings, operator
 sys.path.insert(0, "/verif/harness")
 from qrules import *
 from qx import pyth_angle, exact_circuit_gallina
@@ -9,9 +9,45 @@ import numpy as np
 warnings.filterwarnings("ignore")
 req = json.load(sys.stdin)
 rng = random.Random(req["seed"])
+rng2 = random.Random(req["seed"] * 7919 + 21)      # independent stream for the reflected-arithmetic twins
 tier = req["tier"]
 install_patches()
 PREDS = ["m", "not", "and", "or", "xor", "ge2"]
+# Arithmetic on measurement values with the CONSTANT ON THE LEFT (reflected operators c - m, c + m, c * m, c - (m + m')):
+# an expression is a nested list [op, lhs, rhs] with leaves "m<i>" (i-th mid-circuit measurement) or an integer constant.
+# expr_py evaluates it on the integer outcomes of one history (harness reference, never touches PennyLane);
+# expr_pl builds the MeasurementValue with the very same python operators, so that `3 - m0` goes through __rsub__ etc.
+BINOPS = {"+": operator.add, "-": operator.sub, "*": operator.mul, "==": operator.eq, ">=": operator.ge, "<": operator.lt}
+
+
+def expr_py(e, b):
+    if isinstance(e, int):
+        return e
+    if isinstance(e, str):
+        return b[int(e[1:])]
+    x, y = expr_py(e[1], b), expr_py(e[2], b)
+    return {"+": lambda: x + y, "-": lambda: x - y, "*": lambda: x * y, "==": lambda: int(x == y), ">=": lambda: int(x >= y), "<": lambda: int(x < y)}[e[0]]()
+
+
+def expr_pl(e, ms):
+    if isinstance(e, int):
+        return e
+    if isinstance(e, str):
+        return ms[int(e[1:])]
+    return BINOPS[e[0]](expr_pl(e[1], ms), expr_pl(e[2], ms))
+
+
+def expr_idx(e):
+    return [] if isinstance(e, int) else [int(e[1:])] if isinstance(e, str) else sorted(set(expr_idx(e[1]) + expr_idx(e[2])))
+
+
+# reflected-operator twins of the plain predicates / statistics (same truth table, constant on the left); rng2 decides
+# when a generated plain kind is replaced by its twin, so the main random stream (and hence the circuits) is unchanged
+def twin_pred(kind, idx):
+    i, j = (idx + idx)[:2]
+    return {"m": ["==", ["+", 1, f"m{i}"], 2], "not": ["-", 1, f"m{i}"], "and": ["==", ["-", 2, ["+", f"m{i}", f"m{j}"]], 0],
+            "or": ["<", ["-", 2, ["+", f"m{i}", f"m{j}"]], 2], "xor": ["==", ["-", 2, ["+", f"m{i}", f"m{j}"]], 1],
+            "ge2": [">=", ["+", ["*", 2, f"m{i}"], f"m{j}"], 2]}[kind]
 
 
 def pred_py(kind, idx, b):
@@ -50,6 +86,8 @@ def gen_spec(nw, kmax):
             idx = rng.sample(range(nm), 2) if kind in ("and", "or", "xor", "ge2") else [rng.randrange(nm)]
             n = rng.choice(G1); cls = getattr(qp, n)
             steps.append({"t": "cond", "pred": kind, "idx": idx, "name": n, "params": [pyth_angle(rng) for _ in range(cls.num_params)], "wires": [rng.randrange(nw)]})
+            if rng2.random() < 0.3:
+                steps[-1].update({"pred": "expr", "expr": twin_pred(kind, idx)})
     if nm == 0:
         steps.append({"t": "mcm", "wire": 0, "reset": False, "postselect": None}); nm = 1
     meas = []
@@ -62,6 +100,10 @@ def gen_spec(nw, kmax):
             meas.append({"k": "probs", "wires": rng.sample(range(nw), rng.randint(1, nw))})
         elif r < 0.8:
             meas.append({"k": "expval_mcm", "i": rng.randrange(nm)})
+            if rng2.random() < 0.4:
+                i, c = meas[-1]["i"], rng2.randint(2, 3)
+                e = rng2.choice([["-", c, f"m{i}"], ["+", c, f"m{i}"], ["*", c, f"m{i}"], ["-", c, ["+", f"m{i}", f"m{rng2.randrange(nm)}"]]])
+                meas[-1] = {"k": "expval_expr", "expr": e, "idx": expr_idx(e)}
         else:
             meas.append({"k": "probs_mcm", "idx": rng.sample(range(nm), rng.randint(1, min(2, nm)))})
     return {"nw": nw, "steps": steps, "meas": meas, "nm": nm}
@@ -76,7 +118,8 @@ def qfunc(spec):
             elif s["t"] == "mcm":
                 ms.append(qp.measure(s["wire"], reset=s["reset"], postselect=s["postselect"]))
             else:
-                qp.cond(pred_pl(s["pred"], [ms[i] for i in s["idx"]]), lambda: gate(s))()
+                pr = expr_pl(s["expr"], ms) if s["pred"] == "expr" else pred_pl(s["pred"], [ms[i] for i in s["idx"]])
+                qp.cond(pr, lambda: gate(s))()
         out = []
         for m in spec["meas"]:
             if m["k"] == "expval":
@@ -86,6 +129,8 @@ def qfunc(spec):
                 out.append(qp.probs(wires=m["wires"]))
             elif m["k"] == "expval_mcm":
                 out.append(qp.expval(ms[m["i"]]))
+            elif m["k"] == "expval_expr":
+                out.append(qp.expval(expr_pl(m["expr"], ms)))
             else:
                 out.append(qp.probs(op=[ms[i] for i in m["idx"]]))
         return tuple(out)
@@ -114,7 +159,7 @@ def branch_circuits(spec):
                 if s["reset"] and bit == 1:
                     gates.append(g_gate([s["wire"]], XS))
             else:
-                if pred_py(s["pred"], s["idx"], b):
+                if (expr_py(s["expr"], b) != 0) if s["pred"] == "expr" else pred_py(s["pred"], s["idx"], b):
                     gates.append(exact_circuit_gallina([gate(s)], order)[1:-1])
         out.append({"b": list(b), "dead": dead, "circuit": "[" + ";\n ".join(gates) + "]"})
     return out
@@ -152,6 +197,31 @@ CORPUS = [
     {"nw": 2, "nm": 2, "steps": [{"t": "g", "name": "RY", "params": [A1], "wires": [1]}, {"t": "mcm", "wire": 1, "reset": False, "postselect": None},
                                  {"t": "mcm", "wire": 1, "reset": False, "postselect": 0}, {"t": "g", "name": "RX", "params": [A2], "wires": [0]}],
      "meas": [{"k": "expval", "word": ["Z"], "wires": [1]}, {"k": "expval", "word": ["Y"], "wires": [0]}]},
+    # reflected arithmetic (constant on the LEFT of a measurement value) in predicates and in statistics; all three methods
+    # "exactly one zero among (m0, m1)": 2 - (m0 + m1) == 1; statistics 3 - m0 and 2 - (m0 + m1)
+    {"nw": 3, "nm": 2, "one_shot": True,
+     "steps": [{"t": "g", "name": "RX", "params": [A1], "wires": [0]}, {"t": "g", "name": "RX", "params": [A2], "wires": [1]},
+               {"t": "mcm", "wire": 0, "reset": False, "postselect": None}, {"t": "mcm", "wire": 1, "reset": False, "postselect": None},
+               {"t": "cond", "pred": "expr", "expr": ["==", ["-", 2, ["+", "m0", "m1"]], 1], "idx": [0, 1], "name": "RX", "params": [A3], "wires": [2]}],
+     "meas": [{"k": "expval", "word": ["Z"], "wires": [2]}, {"k": "expval_expr", "expr": ["-", 3, "m0"], "idx": [0]},
+              {"k": "expval_expr", "expr": ["-", 2, ["+", "m0", "m1"]], "idx": [0, 1]}]},
+    # bare 1 - m0 as a (truthy) predicate, 1 + m1 == 2, 2 * m0 + m1 >= 2 after a reset; statistics 2 * m0, 3 + m1, 3 - 2 * m1
+    {"nw": 2, "nm": 2, "one_shot": True,
+     "steps": [{"t": "g", "name": "RY", "params": [A2], "wires": [0]}, {"t": "mcm", "wire": 0, "reset": True, "postselect": None},
+               {"t": "cond", "pred": "expr", "expr": ["-", 1, "m0"], "idx": [0], "name": "RX", "params": [A1], "wires": [1]},
+               {"t": "g", "name": "RY", "params": [A3], "wires": [0]}, {"t": "mcm", "wire": 0, "reset": False, "postselect": None},
+               {"t": "cond", "pred": "expr", "expr": ["==", ["+", 1, "m1"], 2], "idx": [1], "name": "RY", "params": [A2], "wires": [1]},
+               {"t": "cond", "pred": "expr", "expr": [">=", ["+", ["*", 2, "m0"], "m1"], 2], "idx": [0, 1], "name": "RZ", "params": [A1], "wires": [1]}],
+     "meas": [{"k": "expval", "word": ["Y"], "wires": [1]}, {"k": "expval_expr", "expr": ["*", 2, "m0"], "idx": [0]},
+              {"k": "expval_expr", "expr": ["+", 3, "m1"], "idx": [1]}, {"k": "expval_expr", "expr": ["-", 3, ["*", 2, "m1"]], "idx": [1]}]},
+    # postselection on outcome 0 of the first measurement (every kept history has m0 = 0): 1 - m0 always fires, 2 - (m0 + m1) < 2 iff m1
+    {"nw": 2, "nm": 2, "one_shot": True,
+     "steps": [{"t": "g", "name": "RX", "params": [A1], "wires": [0]}, {"t": "mcm", "wire": 0, "reset": False, "postselect": 0},
+               {"t": "g", "name": "RY", "params": [A2], "wires": [1]}, {"t": "mcm", "wire": 1, "reset": False, "postselect": None},
+               {"t": "cond", "pred": "expr", "expr": ["-", 1, "m0"], "idx": [0], "name": "RY", "params": [A3], "wires": [1]},
+               {"t": "cond", "pred": "expr", "expr": ["<", ["-", 2, ["+", "m0", "m1"]], 2], "idx": [0, 1], "name": "RX", "params": [A2], "wires": [0]}],
+     "meas": [{"k": "expval", "word": ["Z"], "wires": [0]}, {"k": "expval", "word": ["Z"], "wires": [1]}, {"k": "expval_mcm", "i": 0},
+              {"k": "expval_expr", "expr": ["-", 2, ["+", "m0", "m1"]], "idx": [0, 1]}]},
 ]
 for ci in range(ncase):
     nw = rng.choice([1, 2, 2, 3])
@@ -172,10 +242,11 @@ for ci in range(ncase):
                 res[method] = [js(o) for o in out]
             except Exception as e:
                 res[method] = f"raised {type(e).__name__}: {str(e)[:200]}"
-        if rng.random() < 0.4:
+        draw = rng.random() < 0.4
+        if draw or spec.get("one_shot"):        # corpus cases marked one_shot are sampled for every seed (fixed device seed)
             try:
                 shots = 6000 if tier == "quick" else 40000
-                dev = qp.device("default.qubit", wires=spec["nw"], seed=rng.randrange(10 ** 6))
+                dev = qp.device("default.qubit", wires=spec["nw"], seed=rng.randrange(10 ** 6) if draw else 210000 + ci)
                 out = qp.set_shots(qp.QNode(f, dev, mcm_method="one-shot"), shots)()
                 out = out if isinstance(out, (tuple, list)) else (out,)
                 res["one-shot"] = {"shots": shots, "values": [js(o) for o in out]}
